@@ -112,6 +112,9 @@ fn bodies() -> Vec<Vec<u8>> {
 		br#"[]"#.to_vec(),
 		br#"[1]"#.to_vec(),
 		br#"{}"#.to_vec(),
+		// whitespace inside strings (params, id) and between tokens: significant vs. insignificant blanks
+		br#"{"jsonrpc":"2.0","id":" i d ","method":"sync_echo","params":["a b  c"," ","	"]}"#.to_vec(),
+		b"{ \"jsonrpc\" : \"2.0\" , \"id\" : 1 ,\n\"method\" : \"sync_echo\" , \"params\" : [ 1 , \"x y\" ] }".to_vec(),
 		br#"x"#.to_vec(),
 		br#"   {"jsonrpc":"2.0","id":7,"method":"fail"}  "#.to_vec(),
 		b"\n[ {\"jsonrpc\":\"2.0\",\"id\":7,\"method\":\"async_echo\",\"params\":{\"a\":[1]}} ]\r\n".to_vec(),
@@ -134,7 +137,7 @@ async fn call(svc: &mut srv::HttpSvc, req: HttpRequest<FramesBody>) -> (Result<H
 pub fn check(rep: &Reporter) {
 	let thorough = rep.tier.thorough();
 	rep.set_rule(
-		"(A) 10 HTTP methods × content-type values (the six accepted spellings in every letter-case variant — all 2^k for k ≤ 15 letters, 4 styles per word for longer ones —, 22 near misses, missing header, duplicated header) with a fixed valid call as body; (B) 17 bodies (calls, notification, batches, invalid, truncated, non-JSON, 0/1/126/127/128 leading blanks) × every split into ≤3 (thorough 4) consecutive chunks × {no extra chunk, an empty chunk or a blank-only chunk inserted at every boundary incl. front and back} × Content-Length {absent, exact}; differential oracle: (status, body, invocation log) equals the single-frame request of the same bytes. Distinct by (method, content-type) resp. (body, frame sequence, content-length); all non-trivial.",
+		"(A) 10 HTTP methods × content-type values (the six accepted spellings in every letter-case variant — all 2^k for k ≤ 15 letters, 4 styles per word for longer ones —, 22 near misses, missing header, duplicated header) with a fixed valid call as body; (B) 19 bodies (calls, notification, batches, invalid, truncated, non-JSON, 0/1/126/127/128 leading blanks) × every split into ≤3 (thorough 4) consecutive chunks × {no extra chunk, an empty chunk or a blank-only chunk inserted at every boundary incl. front and back} × Content-Length {absent, exact}; differential oracle: (status, body, invocation log) equals the single-frame request of the same bytes. Distinct by (method, content-type) resp. (body, frame sequence, content-length); all non-trivial.",
 	);
 	rep.assume("the tower service Server uses per connection is called directly; hyper's own framing is not in the loop");
 	let cfg = || srv::cfg_builder().build();
